@@ -329,7 +329,21 @@ func buildQueries(depth int) []*query {
 		if i := strings.Index(rest, " FROM "); i >= 0 && !strings.HasPrefix(rest, "SELECT x.") {
 			rest = rest[i:]
 		}
-		q.usesF = q.usesF || fRe.MatchString(strings.ReplaceAll(rest, cols, "")) || strings.Contains(rest, "@nz")
+		rest = strings.ReplaceAll(rest, cols, "")
+		q.usesF = q.usesF || fRe.MatchString(rest) || strings.Contains(rest, "@nz")
+		if q.forced {
+			for _, ix := range indexes {
+				for _, cn := range strings.Split(strings.Trim(ix, "()"), ", ") {
+					if ix == "(id)" || regexp.MustCompile(`\b` + cn + `\b`).MatchString(rest) {
+						q.rel = append(q.rel, ix)
+						break
+					}
+				}
+			}
+			if len(q.rel) == 1 && !regexp.MustCompile(`\b(id|ok)\b`).MatchString(rest) {
+				q.rel = indexes
+			}
+		}
 		qs = append(qs, q)
 		return q
 	}
@@ -571,7 +585,7 @@ func (h *hist) runPhase(qs []*query, phase int, pname string, tables []string, m
 			if t == "t_pk" || !q.forced || phase == phSmall || (phase == phReopen && q.cls != "scan" && q.cls != "where" && q.cls != "count" && q.cls != "period") {
 				return []string{""}
 			}
-			return append([]string{""}, indexes...)
+			return append([]string{""}, q.rel...)
 		}
 		for _, x := range tables {
 			if q.refOnly && x != "t_pk" {
